@@ -161,11 +161,13 @@ type Opts struct {
 }
 
 type G struct {
-	T      *rapid.T
-	O      Opts
-	budget int
-	forced bool
-	// statistics about what was built
+	T       *rapid.T
+	O       Opts
+	budget  int
+	forced  bool
+	extSize bool // the string being sized has an extensible size constraint
+	// statistics
+	ExtOutside            int // values generated outside the root of an extensible constraint about what was built
 	OptPresent, OptAbsent int
 }
 
@@ -195,6 +197,11 @@ func (g *G) size(lb, ub int64, has bool, small int64, capv int64, label string) 
 			g.forced = true
 			return g.O.Force
 		}
+	}
+	if has && g.extSize && capv >= ub+20 && g.budget > 0 && g.intn(0, 11, label+"X") == 0 {
+		// extensible size constraint: a size above the root is a legal value (X.691 10.9 with extension bit 1)
+		g.ExtOutside++
+		return ub + int64(g.intn(1, 20, label+"x"))
 	}
 	if g.budget <= 0 {
 		return lb
@@ -239,6 +246,22 @@ func (g *G) intVal(p P, label string) int64 {
 		return rapid.Int64Range(-(1<<40), 1<<40).Draw(g.T, label)
 	}
 	lb, ub := *p.VLB, *p.VUB
+	if p.ValExt && ub < 1<<46 && g.intn(0, 9, label+"X") == 0 {
+		// extensible INTEGER: a value above the root is legal (X.691 12.1: extension bit 1, unconstrained encoding)
+		var o []int64
+		for _, x := range []int64{ub + 1, ub + 2, ub + 100} {
+			o = append(o, x)
+		}
+		for k := uint(7); k < 47; k++ {
+			for _, x := range []int64{1<<k - 1, 1 << k, 1<<k + 1} {
+				if x > ub {
+					o = append(o, x)
+				}
+			}
+		}
+		g.ExtOutside++
+		return o[g.intn(0, len(o)-1, label+"x")]
+	}
 	var c []int64
 	add := func(x int64) {
 		if x >= lb && x <= ub {
@@ -276,7 +299,9 @@ func (g *G) Value(t reflect.Type, p P, depth int) reflect.Value {
 	switch t.String() {
 	case TBitString:
 		lb, ub, has := bounds(p)
+		g.extSize = p.SizeExt
 		n := g.size(lb, ub, has, 40, 8*int64(g.O.BigString), "bs")
+		g.extSize = false
 		b := rapid.SliceOfN(rapid.Byte(), int((n+7)/8), int((n+7)/8)).Draw(g.T, "bsb")
 		if n%8 != 0 {
 			b[len(b)-1] &= 0xff << uint(8-n%8)
@@ -288,7 +313,9 @@ func (g *G) Value(t reflect.Type, p P, depth int) reflect.Value {
 		return v
 	case TOctet:
 		lb, ub, has := bounds(p)
+		g.extSize = p.SizeExt
 		n := g.size(lb, ub, has, 12, int64(g.O.BigString), "os")
+		g.extSize = false
 		b := rapid.SliceOfN(rapid.Byte(), int(n), int(n)).Draw(g.T, "osb")
 		v := reflect.New(t).Elem()
 		v.SetBytes(b)
@@ -320,7 +347,9 @@ func (g *G) Value(t reflect.Type, p P, depth int) reflect.Value {
 		return v
 	case reflect.String:
 		lb, ub, has := bounds(p)
+		g.extSize = p.SizeExt
 		n := g.size(lb, ub, has, 20, int64(g.O.BigString), "st")
+		g.extSize = false
 		idx := rapid.SliceOfN(rapid.IntRange(0, len(printable)-1), int(n), int(n)).Draw(g.T, "stb")
 		b := make([]byte, n)
 		for i := range b {
